@@ -180,6 +180,27 @@ def gen_C19(tier, seed):
         if i % 2 == 0:
             p.write(1, route='dict', data_arrays=arrs, fname='again.dlis')
         progs.append(p.build())
+    # an indexed frame whose index channel has a cast that loses information: the index statistics are computed on copies
+    for i in range(8 if tier == 'quick' else 48):
+        p = Prog(f'C19-indexcast-{i}', {'kind': 'indexcast'})
+        lf, _ = base_lf(p)
+        src, cast = [('float64', 'float32'), ('float64', 'int16'), ('int32', 'uint8'), ('float32', 'int32')][i % 4]
+        a = (np.arange(6) * 1.1 + 1000.6).astype(src) if src.startswith('float') else (np.arange(6) * 3 + 100).astype(src)
+        b = rand_array(rng, 'float64', 6, 2)
+        lay = ['C', 'strided', 'view'][i % 3]
+        route = ['inline', 'dict', 'struct'][(i // 2) % 3]
+        ia, ib = p.array(a, lay if route != 'struct' else 'C'), p.array(b)
+        if route == 'inline':
+            ca, cb = p.channel(lf, 'IX', data=ia, cast=cast), p.channel(lf, 'B', data=ib)
+            arrs = {}
+        else:
+            ca, cb = p.channel(lf, 'IX', cast=cast), p.channel(lf, 'B')
+            arrs = {ca: ia, cb: ib}
+        p.frame(lf, 'FR', [ca, cb], index_type=EN('FrameIndexType', 'BOREHOLE_DEPTH'))
+        kw = {'from': 1, 'to': 5} if i % 2 else {}
+        p.write(1, route='none' if route == 'inline' else route, data_arrays=arrs, **kw)
+        p.write(1, route='none' if route == 'inline' else route, data_arrays=arrs, fname='again.dlis')
+        progs.append(p.build())
     # float data with NaN / infinities under an integer cast (the written value is not judged here; the caller's arrays are)
     for i in range(12 if tier == 'quick' else 120):
         p = Prog(f'C19-nancast-{i}', {'kind': 'nancast'})
